@@ -36,9 +36,9 @@ package server
 
 // the wait queue's ring representation (two implementations)
 //@ func ILockManagerRingQueue.Push
-//@   modifies F_server_LockManagerRingQueue_queue, F_server_LockManagerRingQueue_index, F_server_LockManagerPriorityRingQueue_priorityNodes, F_server_LockManagerPriorityRingQueue_index, F_server_LockManagerPriorityRingQueueNode_ringQueue, F_server_LockManagerPriorityRingQueueNode_priority, E_Pserver_Lock, E_Pserver_LockManagerPriorityRingQueueNode
+//@   modifies F_server_LockManagerRingQueue_queue, F_server_LockManagerRingQueue_index, F_server_LockManagerPriorityRingQueue_priorityNodes, F_server_LockManagerPriorityRingQueueNode_ringQueue, F_server_LockManagerPriorityRingQueueNode_priority, E_Pserver_Lock, E_Pserver_LockManagerPriorityRingQueueNode
 //@ func ILockManagerRingQueue.Pop
-//@   modifies F_server_LockManagerRingQueue_queue, F_server_LockManagerRingQueue_index, F_server_LockManagerPriorityRingQueue_priorityNodes, F_server_LockManagerPriorityRingQueue_index, F_server_LockManagerPriorityRingQueueNode_ringQueue, F_server_LockManagerPriorityRingQueueNode_priority, E_Pserver_Lock, E_Pserver_LockManagerPriorityRingQueueNode
+//@   modifies F_server_LockManagerRingQueue_queue, F_server_LockManagerRingQueue_index, F_server_LockManagerPriorityRingQueue_priorityNodes, F_server_LockManagerPriorityRingQueueNode_ringQueue, F_server_LockManagerPriorityRingQueueNode_priority, E_Pserver_Lock, E_Pserver_LockManagerPriorityRingQueueNode
 //@ func ILockManagerRingQueue.Head
 //@   modifies nothing
 //@ func ILockManagerRingQueue.MaxPriority
@@ -158,7 +158,8 @@ package server
 //@   modifies E_LJPserver_Lock
 
 //@ func (*LockManagerWaitQueue).RePushPriorityRingQueue
-//@   trusted queue internals (wait queue), subject of C20 / C04 order
+//@   requires self != nil
+//@   at call ILockManagerRingQueue.Pop assert C04.repush.order: isnil(self.fastQueue) || len(self.fastQueue) == 0 || self.fastIndex < 0 || self.fastIndex >= len(self.fastQueue)
 //@   ensures forallref(l, Lock, lockSame(l))
 //@   modifies LockManagerWaitQueue.*, LockManagerRingQueue.*, LockManagerPriorityRingQueue.*, LockManagerPriorityRingQueueNode.*, E_LJPserver_Lock, E_Pserver_Lock, E_Pserver_LockManagerPriorityRingQueueNode, E_int32
 
@@ -187,6 +188,8 @@ package server
 
 //@ func (*LockManager).RemoveLock
 //@   requires self != nil && lock != nil && self.freeLocks != nil
+//@   at call LockManagerLockQueue.RemoveLock assert C02.release.unindex: implies(old(self.currentLock) != lock, arg1 == lock.command)
+//@   ensures C02.release.unindexed: implies(old(self.currentLock) != lock && old(self.locks) != nil, calls(LockManagerLockQueue.RemoveLock) == 1)
 //@   ensures C02.release.depth,C01.release.depth: lock.locked == 0 && lock.ackCount == 0xff && result == lock
 //@   ensures C01.release.oldest: implies(old(self.currentLock) != lock, self.currentLock == old(self.currentLock))
 //@   ensures C01.release.next: implies(old(self.currentLock) == lock && self.currentLock != nil, self.currentLock.locked > 0)
@@ -1180,3 +1183,12 @@ package server
 //@   at call ReplicationBufferMutex.Unlock assert C09.push.seq: queueItem != nil && self.seq == u64(queueItem.seq + 1) && self.headItem == queueItem
 //@   modifies all
 
+
+// C11: the number of acknowledgements a require-ack hold waits for in majority mode is a majority of the
+// whole cluster (the followers plus the leader), installed in every acknowledgement database
+//@ spec func clusterMajority(followers) = (followers + 1) / 2 + 1
+//@ func (*ReplicationManager).UpdateDBAckCount
+//@   requires self != nil && self.slock != nil && len(self.serverChannels) < 0x10000
+//@   loop#1 invariant -1 <= rangeindex && rangeindex < len(self.ackDbs) && self.ackDbs == old(self.ackDbs) && self.serverChannels == old(self.serverChannels) && self.slock == old(self.slock) && self.slock.arbiterManager == old(self.slock.arbiterManager) && Config == old(Config) && Config.AofAckMode == old(Config.AofAckMode) && implies(self.slock.arbiterManager == nil && Config.AofAckMode == 1, ackCount == clusterMajority(len(self.serverChannels)) && forall(j, 0, rangeindex + 1, implies(self.ackDbs[j] != nil, self.ackDbs[j].ackCount == u8(clusterMajority(len(self.serverChannels))))))
+//@   ensures C11.quorum.majority: implies(old(self.slock.arbiterManager) == nil && old(Config.AofAckMode) == 1, forall(j, 0, len(self.ackDbs), implies(self.ackDbs[j] != nil, self.ackDbs[j].ackCount == u8(clusterMajority(len(self.serverChannels))))))
+//@   modifies ReplicationAckDB.ackCount
